@@ -408,13 +408,20 @@ func (v *FnVerifier) runRoot(fn *ssa.Function, fc *FuncContract) {
 		}
 		v.oblige("post", fmt.Sprintf("%s/post#%d%s", fc.Key, cl.Ord, tag), cl.Tags, TTrue, And(goals...), fmt.Sprintf("%s:%d", strings.TrimPrefix(cl.File, "/repo/"), cl.Line), cl.Src)
 	}
-	// ---- frame
-	var fgoals []Term
+	// ---- frame: one obligation per heap array that changed
+	perArr := map[string][]Term{}
+	var arrOrder []string
 	for _, ex := range f.exits {
-		fgoals = append(fgoals, Implies(ex.reach, v.frameGoal(entryEnv, ex.state)))
+		for name, g := range v.frameGoals(entryEnv, ex.state) {
+			if _, ok := perArr[name]; !ok {
+				arrOrder = append(arrOrder, name)
+			}
+			perArr[name] = append(perArr[name], Implies(ex.reach, g))
+		}
 	}
-	if g := And(fgoals...); g.S != "true" {
-		v.oblige("frame", fc.Key+"/frame", nil, TTrue, g, v.pos(fn.Pos()), "writes stay inside the modifies clause")
+	sort.Strings(arrOrder)
+	for _, name := range arrOrder {
+		v.oblige("frame", fc.Key+"/frame:"+name, nil, TTrue, And(perArr[name]...), v.pos(fn.Pos()), "writes to "+name+" stay inside the modifies clause")
 	}
 	// ---- onlywrites: a syntactic frame over whole array families (covers fresh objects too)
 	for _, cl := range fc.Of("onlywrites") {
